@@ -53,13 +53,41 @@ def gen_case(rng, shape=None):
     shape = shape or rng.choice(["chain", "chain", "extends", "alias", "mixed", "mixed"])
     k = rng.randint(1, 3)
     classes = []
+    # ---- naming plan: simple class names are REUSED across packages / nesting levels, so that a scope
+    # can only be identified by its full path (wrapper named like an inner library class, two packages
+    # with equally named classes, a nested class named like its enclosing class)
+    naming = rng.choice(["flat", "flat", "pkg", "pkg", "pkg", "nested"])
+    if naming == "nested" and k < 2:
+        naming = "pkg"
+    lvl_name = ["C%d" % i for i in range(k)] + ["M"]
+    lvl_where = [[] for _ in range(k + 1)]
+    nested_at = None
+    if naming == "pkg":
+        used = set()
+        for i in range(k):
+            for _ in range(20):
+                w, n = rng.choice(["L", "K"]), rng.choice(["C0", "C1", "Pump"])
+                if (w, n) not in used:
+                    break
+            used.add((w, n))
+            lvl_where[i], lvl_name[i] = [w], n
+        if rng.random() < 0.75:
+            lvl_name[k] = rng.choice(lvl_name[:k])          # the top-level wrapper is named like a library class
+    elif naming == "nested":
+        nested_at = rng.randint(1, k - 1)                   # level nested_at-1 is defined inside level nested_at ...
+        lvl_name[nested_at - 1] = lvl_name[nested_at]       # ... under the same simple name
+
+    def type_ref(i):
+        """how level i+1 names the class of level i"""
+        return lvl_where[i] + [lvl_name[i]]
+    level_cls = []
     alias2 = shape in ("alias", "mixed") and rng.random() < 0.12
     tmods = [mk_mod([a], value=num(rng.randint(0, 40))) for a in rng.sample(["start", "min", "max", "nominal"], rng.randint(1, 2))]
     classes.append(mk_alias("T", ["Real"], tmods))
     if alias2:
         classes.append(mk_alias("U", ["T"], [mk_mod(["max"], value=num(rng.randint(50, 90)))]))
     # leaf class
-    leaf = mk_class("C0")
+    leaf = mk_class(lvl_name[0])
     leaf["symbols"].append(mk_sym("p", ["Real"], ["parameter"], value=num(1)))
     if rng.random() < 0.5:
         leaf["symbols"].append(mk_sym("q0", ["Real"], ["parameter"], value=num(2)))
@@ -73,14 +101,14 @@ def gen_case(rng, shape=None):
     leaf["symbols"].append(mk_sym("y", ["U"] if alias2 else ["T"], mods=ym))
     leaf["symbols"].append(mk_sym("z", ["Real"]))
     leaf["eqs"].append([ref("z"), ["op", "+", [ref("x"), ref("p")]]])
-    classes.append(leaf)
+    level_cls.append(leaf)
     leaves = ["x", "y", "p"]
     comp_names = ["a", "b", "c"]
     targets = []            # (path below the current class, leaf) available for modification
     targets = [([], v) for v in leaves]
     hot = [(rng.choice(["x", "y"]), rng.choice(["start", "value", "min"]))]      # contested (leaf, attribute)
     for i in range(1, k + 1):
-        name = "M" if i == k else "C%d" % i
+        name = lvl_name[i]
         c = mk_class(name)
         params = ["p"]
         c["symbols"].append(mk_sym("p", ["Real"], ["parameter"], value=num(10 * i)))
@@ -94,7 +122,7 @@ def gen_case(rng, shape=None):
             b["symbols"].append(mk_sym("w", ["Real"], mods=[mk_mod(["start"], value=num(i))]))
             b["symbols"].append(mk_sym("g", ["Real"], ["parameter"], value=num(i)))
             if rng.random() < 0.4:
-                b["symbols"].append(mk_sym("e", ["C0"], mods=[spell(rng, ["x"], "start", num(3), "canonical")] if rng.random() < 0.5 else []))
+                b["symbols"].append(mk_sym("e", type_ref(0), mods=[spell(rng, ["x"], "start", num(3), "canonical")] if rng.random() < 0.5 else []))
             b["eqs"].append([ref("w"), ref("g")])
             classes.append(b)
             emods = []
@@ -127,15 +155,25 @@ def gen_case(rng, shape=None):
             mods.append(spell(rng, path + [leafname], attr, expr_for(rng, attr, params), style))
         # the same path must not be opened twice in one modifier list in different spellings: merge check is
         # left to the reference (duplicate modification -> Reject)
-        c["symbols"].append(mk_sym(cn, ["C%d" % (i - 1)], mods=mods))
+        c["symbols"].append(mk_sym(cn, type_ref(i - 1), mods=mods))
         if rng.random() < 0.3:
-            c["symbols"].append(mk_sym(cn + "2", ["C%d" % (i - 1)]))           # a second, unmodified instance
+            c["symbols"].append(mk_sym(cn + "2", type_ref(i - 1)))           # a second, unmodified instance
         c["symbols"].append(mk_sym("r%d" % i, ["Real"]))
         tx = [t for t in targets if t[1] == "x"]
         c["eqs"].append([ref("r%d" % i), ["op", "+", [ref(*([cn] + tx[0][0] + ["x"])), ref("p")]]])
-        classes.append(c)
+        level_cls.append(c)
         targets = [([cn] + p_, v) for p_, v in targets] + new_targets
-    lib = {"classes": classes, "top": "M", "shape": shape}
+    pk = {}
+    for i, c in enumerate(level_cls):
+        if nested_at is not None and i == nested_at - 1:
+            level_cls[nested_at]["classes"].append(c)
+        elif lvl_where[i]:
+            pk.setdefault(lvl_where[i][0], []).append(c)
+        else:
+            classes.append(c)
+    for w in sorted(pk):
+        classes.insert(rng.randint(0, len(classes)), mk_class(w, "package", classes=pk[w]))
+    lib = {"classes": classes, "top": lvl_name[k], "shape": shape + "/" + naming}
     lib["text"] = render(lib)
     return lib
 
@@ -173,6 +211,20 @@ def fixed_cases():
     out.append({"classes": [mk_alias("T", ["Real"], [mk_mod(["min"], value=num(0))]), mk_alias("U", ["T"], [mk_mod(["max"], value=num(5))]),
                             mk_class("M", symbols=[mk_sym("u", ["U"], mods=[mk_mod(["start"], value=num(1))], value=num(4))])],
                 "top": "M", "shape": "fixed-alias2"})
+    # same simple class name at two levels: wrapper model Pump around Lib.Station containing Lib.Pump; the
+    # scope of st(pump.eff = ...) is the top-level Pump, not Lib.Pump
+    for top in ("Pump", "Plant"):
+        for val in (num(8), ref("eff"), ["op", "*", [num(2), ref("eff")]]):
+            LP = mk_class("Pump", symbols=[mk_sym("eff", ["Real"], ["parameter"], value=num(5)),
+                                           mk_sym("head", ["Real"], ["parameter"], mods=[mk_mod(["min"], value=num(0))],
+                                                  value=["op", "*", [num(10), ref("eff")]])])
+            LS = mk_class("Station", symbols=[mk_sym("eff", ["Real"], ["parameter"], value=num(7)),
+                                              mk_sym("pump", ["Pump"], mods=[mk_mod(["eff"], value=num(6)),
+                                                                             mk_mod(["head"], args=[mk_mod(["min"], value=num(1))])])])
+            out.append({"classes": [mk_class("Lib", "package", classes=[LP, LS]),
+                                    mk_class(top, symbols=[mk_sym("eff", ["Real"], ["parameter"], value=num(9)),
+                                                           mk_sym("st", ["Lib", "Station"], mods=[mk_mod(["pump", "eff"], value=val)])])],
+                        "top": top, "shape": "fixed-same-name"})
     for c in out:
         c["text"] = render(c)
     return out
